@@ -104,6 +104,13 @@ def getCompletions (pfx : Str) (numWords : Nat) : List Str :=
   let count := pfx.count 45
   (completionWords count).filterMap (completionOf pfx numWords count (lastPart pfx))
 
+/-- one `PGPWordList` object asked the queries `(num_words, prefix)` one after the other (an interactive
+    session: TAB, go back, change an earlier word, TAB again, …).  The class has no attributes and
+    `get_completions` reads nothing but its two arguments, so the answers are those of the single queries:
+    nothing is carried from one query to the next.  (A memo inside the real object has to be invisible here.) -/
+def gcSession (qs : List (Nat × Str)) : List (List Str) :=
+  qs.map fun q => getCompletions q.2 q.1
+
 /-! ## `validate_nameplate` / `validate_code` -/
 
 inductive Err where
@@ -409,6 +416,8 @@ vc <str>                 -> ok | KeyFormatError                 validate_code
 cw <n> <bytes>           -> <str>                               choose_words(n) under urandom = bytes
 word <i> <byte>          -> <str>                               the word for byte at word index i
 gc <numwords> <str>      -> <strs>                              get_completions, sorted
+gcs <n>:<str>,<n>:<str>… -> <strs>;<strs>;…                     one wordlist object asked these queries in turn
+new                      -> ok                                  a fresh client (Boss, Input, Helper, CodeInputter) in the same process
 nd <codepoint>           -> 0 | 1                               \d
 ndranges                 -> lo-hi,lo-hi,…
 alloc <n> | set <str> | input | connected | lost | rxalloc <str> <bytes> | gotnp <strs> | gotwl
@@ -462,6 +471,14 @@ def showStep (before : Nat) (r : R) (asBool : Bool) : String :=
       | some l => if asBool then (if l == [[1]] then "fired" else "pending") else showStrs l
   let cmds := (s.out.drop before).map showCmd
   s!"{res} | {" ".intercalate cmds} | {s.latch} {Code.State.name s.code} {Input.State.name s.inp} {Allocator.State.name s.alloc}"
+
+/-- `<numwords>:<str>` -/
+def readQuery? (t : String) : Option (Nat × Str) :=
+  match t.splitOn ":" with
+  | [n, h] => do pure (← n.toNat?, ← readStr? h)
+  | _ => none
+
+def readQueries? (t : String) : Option (List (Nat × Str)) := (t.splitOn ",").mapM readQuery?
 
 def readEv? : List String → Option Ev
   | ["alloc", n] => n.toNat?.map .allocate
@@ -660,6 +677,11 @@ def stepLine (r : Rl) (line : String) : Rl × String :=
   let s := r.s
   match tokens line with
   | ["reset"] => (rlInit, "ok")
+  | ["new"] => (rlInit, "ok")
+  | ["gcs", t] =>
+    match readQueries? t with
+    | some qs => (r, ";".intercalate ((gcSession qs).map showStrs))
+    | none => (r, "bad-op")
   | "xfer" :: _kind :: rest =>
     let arg : Option CodeArg :=
       match rest with
